@@ -151,31 +151,8 @@ func checkUpdate(w *poolrig.World, from, to int, in, out []types.V2Transaction, 
 }
 
 func corruptProof(rng *vh.RNG, set []types.V2Transaction) bool {
-	for k := 0; k < 8; k++ {
-		t := &set[rng.Intn(len(set))]
-		if len(t.SiacoinInputs) == 0 {
-			continue
-		}
-		in := &t.SiacoinInputs[rng.Intn(len(t.SiacoinInputs))]
-		se := &in.Parent.StateElement
-		if se.LeafIndex == types.UnassignedLeafIndex {
-			continue
-		}
-		switch rng.Intn(3) {
-		case 0:
-			if len(se.MerkleProof) == 0 {
-				continue
-			}
-			se.MerkleProof = append([]types.Hash256(nil), se.MerkleProof...)
-			se.MerkleProof[rng.Intn(len(se.MerkleProof))][3] ^= 0x40
-		case 1:
-			se.LeafIndex ^= 1
-		default:
-			se.MerkleProof = append(append([]types.Hash256(nil), se.MerkleProof...), types.Hash256{7})
-		}
-		return true
-	}
-	return false
+	_, ok := poolrig.CorruptProof(rng, set)
+	return ok
 }
 
 func copySet(set []types.V2Transaction) []types.V2Transaction {
@@ -333,6 +310,13 @@ func treeCase(r *vh.Run, rng *vh.RNG, name string) {
 	for k := 0; k < 10 && !w.Panicked; k++ {
 		g.Parents()
 	}
+	// damaged copies of already pooled transactions at a stale basis, through all three entry points
+	for k := 0; k < 2 && !w.Panicked; k++ {
+		if g.CorruptResubmit() == "skip" {
+			w.GrowRandom(w.TipID(), 0)
+			w.Refresh()
+		}
+	}
 	w.Finish(pairs > 0 && w.Stats["reorgs"] > 0, "tree")
 }
 
@@ -380,12 +364,107 @@ func longCase(r *vh.Run, rng *vh.RNG, name string) {
 	w.Finish(true, "long-chain")
 }
 
+// forkCase: distances across a fork.  Two branches of 74 and 76 blocks above a common ancestor, both
+// applied at some time; sets valid on one branch are moved to the other over paths whose TOTAL
+// length (revert leg + apply leg) is 140..150 while each leg stays below the limit.
+func forkCase(r *vh.Run, rng *vh.RNG, name string) {
+	net := chainx.PoolNet(rng, 1, 100000)
+	w := poolrig.NewWorld(r, rng, name, net)
+	tip := 0
+	for i := 0; i < 3; i++ {
+		tip = w.GrowRandom(tip, 2)
+	}
+	fork := tip
+	grow := func(n int) []int {
+		at := fork
+		var ids []int
+		for i := 0; i < n; i++ {
+			at = w.GrowRandom(at, 0)
+			ids = append(ids, at)
+		}
+		return ids
+	}
+	a := grow(poolrig.MaxReorgLen/2 + 2) // 74
+	b := grow(poolrig.MaxReorgLen/2 + 4) // 76: overtakes
+	w.Refresh()
+	if w.TipID() != b[len(b)-1] {
+		w.Finish(false, "fork-no-reorg")
+		return
+	}
+	base := w.LedgerAt(fork)
+	move := func(from, to int, rlen, plen int, dir string) {
+		if !w.Applied[from] || !w.Applied[to] {
+			return
+		}
+		var coin *poolrig.Coin
+		for _, c := range w.CoinsOf(w.LedgerAt(from), w.Tree.Blocks[from].Height+1) {
+			if _, ok := base.SC[c.ID]; ok && c.Value.Cmp(types.Siacoins(3)) >= 0 {
+				cc := c
+				coin = &cc
+				break
+			}
+		}
+		if coin == nil {
+			return
+		}
+		cs := w.Node.CM.TipState()
+		p := w.SpendV2(cs, []poolrig.Coin{*coin}, 2, poolrig.Fee(rlen+plen), 0)
+		ch := w.SpendV2(cs, []poolrig.Coin{poolrig.CoinV2(p, 0)}, 1, poolrig.Fee(7), 0)
+		set := []types.V2Transaction{p, ch}
+		kind := fmt.Sprintf("fork-%s-r%d-a%d", dir, rlen, plen)
+		out, ok := w.Update(from, to, copySet(set), kind)
+		total := rlen + plen
+		if ok != (total <= poolrig.MaxReorgLen) {
+			w.C.Oracle("updatev2transactionset-distance-limit", "UpdateV2TransactionSet across a fork over a path of length %d (revert %d + apply %d; supported: %d in total): ok=%v", total, rlen, plen, poolrig.MaxReorgLen, ok)
+		}
+		if ok {
+			checkUpdate(w, from, to, set, out, "fork")
+		}
+		w.Stats[fmt.Sprintf("upd-fork-total:%d", total)]++
+	}
+	na, nb := len(a), len(b)
+	// (revert leg, apply leg): a[r-1] is r blocks above the fork on branch A, b[p-1] p blocks on B
+	for _, rp := range [][2]int{{na, 66}, {na, 70}, {na, 71}, {70, 74}, {72, 72}, {73, 72}, {na, nb}, {60, 76}, {1, nb}, {na, 1}} {
+		move(a[rp[0]-1], b[rp[1]-1], rp[0], rp[1], "ab")
+		move(b[rp[1]-1], a[rp[0]-1], rp[1], rp[0], "ba")
+	}
+	// a stale-basis submission across the fork: the tip is b's end; a basis on branch A at total distance 144 / 145
+	for _, r0 := range []int{poolrig.MaxReorgLen - nb, poolrig.MaxReorgLen - nb + 1} {
+		if r0 < 1 || r0 > na {
+			continue
+		}
+		from := a[r0-1]
+		var coin *poolrig.Coin
+		for _, c := range w.CoinsOf(w.LedgerAt(from), w.Tree.Blocks[from].Height+1) {
+			if _, ok := base.SC[c.ID]; ok && c.Value.Cmp(types.Siacoins(3)) >= 0 {
+				if _, still := w.Led.SC[c.ID]; still {
+					cc := c
+					coin = &cc
+				}
+			}
+		}
+		if coin == nil {
+			continue
+		}
+		t := w.SpendV2(w.Node.CM.TipState(), []poolrig.Coin{*coin}, 1, poolrig.Fee(r0), 0)
+		res := w.AddV2(from, []types.V2Transaction{t}, nil)
+		w.Refresh()
+		if (res == "ok") != (r0+nb <= poolrig.MaxReorgLen) {
+			w.C.Oracle("addv2pooltransactions-distance-limit", "AddV2PoolTransactions with a basis %d blocks up another branch (path %d + %d): %s", r0, r0, nb, res)
+		}
+	}
+	w.Finish(true, "forked-long-chain")
+}
+
 func Run(r *vh.Run) {
-	r.Rule = "tree cases: a real chain.Manager on a fork tree (main chain 4-7, 1-2 forks of depth 1-3 that overtake the tip, pool activity in between); for every once-applied block `from` a set valid there (1-3 groups: single confirmed input / parent+child / child with ephemeral and confirmed input) is moved to about 2/3 of all once-applied blocks `to` (same fork forwards and backwards, other forks, from == to), plus corrupted proofs / leaf indices, unknown and never-applied bases and targets, and 10 parent-closure queries (V2TransactionSet with v1/v2 parents, grandparent orders, stale basis); long cases: one chain of 148 blocks, paths of length 143,144,145,146 forwards and back. non-trivial = at least one reorg happened and one pair was moved; distinct = distinct op lists"
+	r.Rule = "tree cases: a real chain.Manager on a fork tree (main chain 4-7, 1-2 forks of depth 1-3 that overtake the tip, pool activity in between); for every once-applied block `from` a set valid there (1-3 groups: single confirmed input / parent+child / child with ephemeral and confirmed input) is moved to about 2/3 of all once-applied blocks `to` (same fork forwards and backwards, other forks, from == to), plus corrupted proofs / leaf indices, unknown and never-applied bases and targets, and 10 parent-closure queries (V2TransactionSet with v1/v2 parents, grandparent orders, stale basis); long cases: one chain of 148 blocks, paths of length 143,144,145,146 forwards and back; fork cases: two branches of 74 and 76 blocks above a common ancestor, sets moved from one branch to the other over paths of total length 140-150 with each leg below 144 (70+74 and 72+72 must succeed, 73+72 and 74+71 must fail), and stale-basis submissions across the fork at total distance 144 / 145; 2 damaged resubmissions of an already pooled transaction at a stale basis per tree through UpdateV2TransactionSet, AddV2PoolTransactions and V2TransactionSet. non-trivial = at least one reorg happened and one pair was moved; distinct = distinct op lists"
 	rng := vh.NewRNG(r.Seed).Fork()
 	n := r.Pick(120, 3000)
 	for i := 0; i < n; i++ {
 		treeCase(r, rng.Fork(), fmt.Sprintf("t%d", i))
+	}
+	for i := 0; i < r.Pick(1, 3); i++ {
+		forkCase(r, rng.Fork(), fmt.Sprintf("f%d", i))
 	}
 	for i := 0; i < r.Pick(1, 3); i++ {
 		longCase(r, rng.Fork(), fmt.Sprintf("l%d", i))
